@@ -23,7 +23,8 @@ Three layers:
 """
 from pyvc.api import (proof, bounded, load, model, fresh_str, fresh_real,
                       fresh_int, pick, assume, check, in_lang, re_lang,
-                      parses_as_float, float_of, int_of, implies, blank, neg)
+                      parses_as_float, float_of, int_of, implies, blank, neg,
+                      unmodelled)
 
 SU = 'oslo_utils/strutils.py'
 QE = 'oslo_utils/imageutils/qemu.py'
@@ -110,11 +111,29 @@ def units_constants():
 
 
 class FakeMatch:
-    def __init__(self, groups):
-        self.groups = groups
+    """The part of re.Match the groups can be read through."""
 
-    def group(self, i):
-        return self.groups[i - 1]
+    def __init__(self, groups):
+        self._groups = tuple(groups)
+
+    def group(self, *idx):
+        if not idx:
+            idx = (0,)
+        out = []
+        for i in idx:
+            if i == 0:
+                unmodelled('Match.group(0)')
+            out.append(self._groups[i - 1])
+        return out[0] if len(out) == 1 else tuple(out)
+
+    def groups(self, default=None):
+        return tuple(default if g is None else g for g in self._groups)
+
+    def __getitem__(self, i):
+        return self.group(i)
+
+    def __bool__(self):
+        return True
 
 
 class FakePattern:
